@@ -657,6 +657,27 @@ def gen_query(tp, m: Model, ids):
 BAD_ELEMENTS = ("Xx", 0, 119, -6, "carbon")
 
 
+import enum as _enum
+
+
+class _ForeignLabel(_enum.Enum):
+    """a label from somebody else's enum with the same value"""
+    FORMED = "formed"
+    BROKEN = "broken"
+
+
+class _ForeignInt(_enum.IntEnum):
+    FORMED = 1
+
+
+def _label(v):
+    if v == "ENUM:FORMED":
+        return _ForeignLabel.FORMED
+    if v == "INTENUM:1":
+        return _ForeignInt.FORMED
+    return v
+
+
 def _fresh(x):
     """an equal but separately created id (as a caller gets from parsing):
     large ints are then distinct objects"""
@@ -682,7 +703,7 @@ def apply_fault(g, f):
     elif k == "del_atom_attr":
         g.delete_atom_attribute(f[1], f[2])
     elif k == "set_bond_attr":
-        g.set_bond_attribute(f[1], f[2], f[3], f[4])
+        g.set_bond_attribute(f[1], f[2], f[3], _label(f[4]))
     elif k == "del_bond_attr":
         g.delete_bond_attribute(f[1], f[2], f[3])
     elif k == "set_atom_stereo":
@@ -698,7 +719,7 @@ def apply_fault(g, f):
     elif k == "add_atom":
         g.add_atom(f[1], f[2])
     elif k == "add_bond_role_type":
-        g.add_bond(f[1], f[2], reaction=f[3])
+        g.add_bond(f[1], f[2], reaction=_label(f[3]))
     else:
         raise HarnessError(f"unknown fault {f}")
 
@@ -842,6 +863,16 @@ def gen_fault(tp, m: Model, ids):
         which = tp.pick(["set_atom_change", "set_bond_change"])
         return [which, {r: None for r in ROLES if tp.chance(128)}, tag]
     if kind == "change-two-centres":
+        if tp.chance(40) and len(atoms) >= 2:
+            # one role centred on a real atom, another one on the lone-pair
+            # placeholder (None is no atom)
+            x = tp.pick(atoms)
+            ligs = ([q for q in tp.shuffle(atoms) if q != x]
+                    + [None] * 4)[:4]
+            r1, r2 = tp.shuffle(list(ROLES))[:2]
+            return ["set_atom_change",
+                    {r1: ["Tetrahedral", [x] + ligs, 1],
+                     r2: ["Tetrahedral", [None] + ligs, -1]}, tag]
         if tp.chance(70):
             # two descriptors over the SAME atoms (unspecified parity makes
             # them compare equal) centred on different atoms / bonds
@@ -899,9 +930,11 @@ def gen_fault(tp, m: Model, ids):
         if bonds and tp.chance(128):
             x, y = sorted(tp.pick(bonds))
             return ["set_bond_attr", x, y, "reaction",
-                    tp.pick(["formed", 1, "BROKEN"]), tag]
+                    tp.pick(["formed", 1, "BROKEN", "ENUM:FORMED",
+                             "INTENUM:1"]), tag]
         x, y = tp.shuffle(atoms)[:2]
-        return ["add_bond_role_type", x, y, tp.pick(["formed", 1, "BROKEN"]),
+        return ["add_bond_role_type", x, y,
+                tp.pick(["formed", 1, "BROKEN", "ENUM:FORMED", "INTENUM:1"]),
                 tag]
     if kind == "delete-element":
         return ["del_atom_attr", a, "atom_type", tag]
@@ -966,7 +999,13 @@ def enumerate_faults(m: Model):
             elif m.is_reaction:
                 out.append(["set_bond_attr", x, y, "reaction", "formed",
                             "#role-type"])
+                out.append(["set_bond_attr", x, y, "reaction", "ENUM:FORMED",
+                            "#role-type"])
             if m.cls == "SCRG":
+                out.append(["set_atom_change", {
+                    "broken": ["Tetrahedral", [x, y, None, None, None], 1],
+                    "formed": ["Tetrahedral", [None, y, x, None, None], -1]},
+                    "#change-two-centres"])
                 for par in (1, None):
                     out.append(["set_atom_change", {
                         "broken": ["Tetrahedral", [x, y, None, None, None],
